@@ -20,6 +20,7 @@ typedef struct {
 
 #define NF 32
 static fiber_t fibers[NF + 1];
+static int inwq[NF + 1];      /* fiber sits in a wait queue outside the scheduler (blocked, wake-up not yet consumed) */
 static hcase_t* cur;
 static int nthreads;
 
@@ -31,6 +32,9 @@ static void prog(int t) {
   for (int k = 0; k < cur->nops[t]; k++) {
     long opc = cur->ops[t][k][0], a = cur->ops[t][k][1];
     long r = 0;
+    if ((opc == 1 || opc == 5 || opc == 7 || opc == 8) && (a < 1 || a > NF)) {   /* no such fiber: refused */
+      rt_event(k + 1, K_RET, -1); continue;
+    }
     if (opc == 1) {                       /* spawn fiber a (fiber_create): READY + schedule */
       fiber_t* f = &fibers[a];
       if (f->state != 0) { rt_event(k + 1, K_RET, -1); continue; }   /* already exists: refused */
@@ -39,7 +43,7 @@ static void prog(int t) {
       r = a;
     } else if (opc == 2 || opc == 4) {    /* 2: fiber_yield   4: block (state WAITING, then yield) */
       if (!current) { rt_event(k + 1, K_RET, -1); continue; }
-      if (opc == 4) current->state = FIBER_STATE_WAITING;
+      if (opc == 4) { current->state = FIBER_STATE_WAITING; inwq[fid(current)] = 1; }
       const fiber_state_t st = current->state;
       fiber_t* nf = fiber_scheduler_next(s);
       if (nf) {
@@ -61,8 +65,19 @@ static void prog(int t) {
       r = fid(current);
     } else if (opc == 5) {                /* wake fiber a (as wake_from_* does) */
       fiber_t* f = &fibers[a];
-      if (f->state == FIBER_STATE_WAITING) { f->state = FIBER_STATE_READY; fiber_scheduler_schedule(s, f); r = a; }
-    } else if (opc == 6) {                /* occasional load balance from a running fiber (yield_count & 1023) */
+      if (f->state == FIBER_STATE_WAITING && inwq[a]) {   /* the waker pops f from its wait queue */
+        inwq[a] = 0; f->state = FIBER_STATE_READY; fiber_scheduler_schedule(s, f); r = a;
+      }
+    } else if (opc == 7) {                /* park-saving a: a waker finds the waiter before it finished switching away:
+                                             it is scheduled while its state is SAVING_STATE_TO_WAIT */
+      fiber_t* f = &fibers[a];
+      if (f->state == FIBER_STATE_WAITING && inwq[a]) {
+        inwq[a] = 0; f->state = FIBER_STATE_SAVING_STATE_TO_WAIT; fiber_scheduler_schedule(s, f); r = a;
+      }
+    } else if (opc == 8) {                /* flip a: the successor's maintenance (SAVING -> WAITING) */
+      fiber_t* f = &fibers[a];
+      if (f->state == FIBER_STATE_SAVING_STATE_TO_WAIT) { f->state = FIBER_STATE_WAITING; r = a; }
+    } else {                              /* 6 (and any other code, as in Sched.dec_op): occasional load balance from a running fiber (yield_count & 1023) */
       fiber_scheduler_load_balance(s);
       r = 0;
     }
@@ -75,6 +90,7 @@ static void h_run_case(hcase_t* c) {
   int dmax = (int)c->params[0];
   nthreads = c->nthreads;
   memset(fibers, 0, sizeof fibers);
+  memset(inwq, 0, sizeof inwq);
   fiber_scheduler_init(nthreads);
   for (int t = 0; t < nthreads; t++) {
     sched_mirror_t* m = (sched_mirror_t*)fiber_scheduler_for_thread(t);
